@@ -219,9 +219,18 @@ pub fn run_pair<C: ?Sized + AbiExportable + 'static, TI: ZooVal, TJ: ZooVal>(
 pub fn plugin_probes(seed: u64) -> Vec<String> {
     use crate::zoo_gen::{FamAdd_v0, FamAdd_v1};
     let mut out = Vec::new();
+    let stuck = std::cell::Cell::new(false);
     let mut probe = |what: &str, f: &dyn Fn() -> Result<(), String>| {
         let tag = if what.starts_with("concurrent") { "C16" } else { "C09" };
+        if stuck.get() {
+            // an earlier probe left a thread waiting for ever while holding a global lock
+            return;
+        }
         match catch_unwind(AssertUnwindSafe(f)) {
+            Ok(Err(e)) if e.starts_with("deadlock") => {
+                stuck.set(true);
+                out.push(format!("!{} plugin-probe-failed what={} got={}", tag, what, e.replace(' ', "_")));
+            }
             Ok(Ok(())) => out.push(format!("#stat plugin-probe-{} 1", what)),
             Ok(Err(e)) => out.push(format!("!{} plugin-probe-failed what={} got={}", tag, what, e.replace(' ', "_"))),
             Err(_) => out.push(format!("!{} plugin-probe-panics what={} got={}", tag, what, panic_class(&last_panic()))),
@@ -265,6 +274,48 @@ pub fn plugin_probes(seed: u64) -> Vec<String> {
             }
         }
         Ok(())
+    });
+    probe("concurrent-nested-creation", &|| {
+        // the implementation's constructor creates a connection itself; run under a watchdog: a creation that
+        // waits for a lock its own caller holds never returns
+        let (tx, rx) = std::sync::mpsc::channel();
+        std::thread::spawn(move || {
+            let r = AbiConnection::<dyn crate::abitraits::Nest>::load_shared_library(&plugin_path(0)).map_err(|e| err_class(&e)).map(|c| crate::abitraits::Nest::ping(&c, 7));
+            let _ = tx.send(r);
+        });
+        match rx.recv_timeout(std::time::Duration::from_secs(20)) {
+            Ok(Ok(26)) => Ok(()),
+            Ok(Ok(other)) => Err(format!("ping(7) = {}", other)),
+            Ok(Err(e)) => Err(format!("nested creation failed: {}", e)),
+            Err(_) => Err("deadlock: creating a connection whose implementation's constructor creates a connection did not finish within 20 s".into()),
+        }
+    });
+    probe("concurrent-refused-owner-with-connecting-destructor", &|| {
+        // a refused creation that owns its implementation object; the object's destructor creates a connection.
+        // Whatever the library does with the object (keep it, drop it), it must not do it in a way that makes
+        // this creation, or the destructor's, wait forever.
+        use crate::abitraits::{DropConnects, Nest, Nest2};
+        let (tx, rx) = std::sync::mpsc::channel();
+        std::thread::spawn(move || {
+            let dropped = std::sync::Arc::new(std::sync::atomic::AtomicUsize::new(0));
+            let r = unsafe {
+                AbiConnection::<dyn Nest>::from_boxed_trait_for_test(
+                    <dyn Nest2 as AbiExportable>::ABI_ENTRY,
+                    Box::new(DropConnects { dropped: dropped.clone() }) as Box<dyn Nest2>,
+                )
+            };
+            let refused = r.is_err();
+            drop(r);
+            // afterwards creation still works
+            let ok = AbiConnection::<dyn Nest2>::from_boxed_trait(Box::new(DropConnects { dropped })).map(|c| Nest2::ping(&c, "abc".to_string()));
+            let _ = tx.send((refused, ok.map_err(|e| err_class(&e))));
+        });
+        match rx.recv_timeout(std::time::Duration::from_secs(20)) {
+            Ok((true, Ok(3))) => Ok(()),
+            Ok((false, _)) => Err("a connection between incompatible interfaces was created".into()),
+            Ok((true, other)) => Err(format!("creation after the refused one: {:?}", other)),
+            Err(_) => Err("deadlock: a refused creation whose implementation object has a destructor that creates a connection did not finish within 20 s".into()),
+        }
     });
     probe("concurrent-loads", &|| {
         let mut hs = Vec::new();
